@@ -10,3 +10,35 @@ for dirpath, _, files in os.walk(os.path.join(REPO, "corankco")):
             out[os.path.relpath(p, REPO)] = hashlib.sha256(open(p, "rb").read()).hexdigest()
 json.dump(out, open(os.path.join(os.path.dirname(os.path.abspath(__file__)), "..", "vf", "anchors.json"), "w"), indent=1, sort_keys=True)
 print(len(out), "files recorded")
+
+# ---- baseline of entered functions (vf/anchor_baseline.json): for every property, the functions of its anchored files that
+# the quick workload entered at EVERY one of the seeds below (a function entered at some seeds only is not required)
+import subprocess, sys, tempfile
+VERIF = os.path.join(os.path.dirname(os.path.abspath(__file__)), "..")
+sys.path.insert(0, VERIF)
+from vf import anchors      # noqa: E402
+SEEDS = [0, 1, 2, 3, 4]
+props = [a for a in sys.argv[1:] if a.startswith("C")] or [f"C{i:02d}" for i in range(1, 21)]
+bpath = os.path.join(VERIF, "vf", "anchor_baseline.json")
+base = json.load(open(bpath)) if os.path.exists(bpath) else {}
+for prop in props:
+    per_seed = []
+    for seed in SEEDS:
+        outdir = tempfile.mkdtemp(prefix="vf-lines-", dir="/var/tmp")
+        env = dict(os.environ, VERIF_SEED=str(seed), VERIF_NO_EVIDENCE="1", VERIF_LINES_OUT=outdir)
+        r = subprocess.run([os.path.join(VERIF, "check"), prop, "quick"], cwd=VERIF, env=env, stdout=subprocess.PIPE,
+                           stderr=subprocess.STDOUT, text=True)
+        fn = os.path.join(outdir, prop + ".json")
+        if r.returncode != 0 or not os.path.exists(fn):
+            print("NOT RECORDED", prop, seed, r.stdout[-300:])
+            per_seed = None
+            break
+        lines = json.load(open(fn))
+        per_seed.append({rel: set(anchors.entered_functions(os.path.join(REPO, rel), lines.get(rel, ())))
+                         for rel in anchors.files_of(prop)})
+        import shutil
+        shutil.rmtree(outdir, ignore_errors=True)
+    if per_seed:
+        base[prop] = {"quick": {rel: sorted(set.intersection(*[s[rel] for s in per_seed])) for rel in anchors.files_of(prop)}}
+        print(prop, {rel: len(v) for rel, v in base[prop]["quick"].items()})
+json.dump(base, open(bpath, "w"), indent=1, sort_keys=True)
